@@ -119,19 +119,73 @@ Theorem redundant_condition_sound : forall supp_true media_true earlier later,
 Proof. exact redundant_sound_all. Qed.
 Print Assumptions redundant_condition_sound.
 
-From V Require Import C12.Box.
-(* PARTIAL (of box_collapse_same_sides): the shorthand value compactTokenQuad
-   builds re-expands (expandTokenQuad / CSS Box 4) to exactly the four sides it
-   was built from, and no shorter value does.  Missing: boxTracker's bookkeeping
-   (which longhands are dropped, unit safety, the !important reset), which is
-   tied by the oracle glue stream only. *)
-Theorem box_collapse_same_sides_partial : forall q, expand_quad (compact_quad q) = Some q.
+From V Require Import C12.Box C12.BoxTracker C12.BoxSpec C12.BoxMain C12.DedupeSpec.
+(* BOX SHORTHAND COLLAPSING (replaces box_collapse_same_sides_partial).
+   box_process is the faithful model of the margin / padding / inset tracking in
+   processDeclarations (boxTracker: sides with ruleIndex and wasSingleRule, the
+   important flag, unit-safety status, updateSide's blanking, compactRules,
+   final compaction of blanked rules; tied to the Go code by box_cases).
+   For EVERY declaration list (keys well-typed: a longhand names one of the four
+   sides), for both trackers that allow / forbid auto, with and without
+   compaction (inset with the shorthand unsupported), in EVERY browser
+   environment (which non-safe units, which unitless numbers, which opaque
+   var()/keyword declarations it accepts) and for every side:
+   the cascaded value of the side (last valid !important declaration, else last
+   valid normal one; 0px = 0, auto case-insensitive) is the same before and
+   after. *)
+Theorem box_collapse_keeps_sides : forall aa cc l, wf_keys l -> forall e s,
+  side_value e aa (box_process aa cc false l) s = side_value e aa l s.
+Proof. exact box_collapse_keeps_sides_all. Qed.
+Print Assumptions box_collapse_keeps_sides.
+
+(* stronger: each importance layer separately *)
+Theorem box_collapse_keeps_layers : forall aa cc l, wf_keys l -> forall e imp s,
+  layer e aa imp s (box_process aa cc false l) = layer e aa imp s l.
+Proof. exact box_layers_all. Qed.
+Print Assumptions box_collapse_keeps_layers.
+
+(* every declaration of another property survives, unchanged and in the same relative order *)
+Theorem box_collapse_keeps_others : forall aa cc l, wf_keys l ->
+  filter is_other (box_process aa cc false l) = filter is_other l.
+Proof. exact box_collapse_keeps_others_all. Qed.
+Print Assumptions box_collapse_keeps_others.
+
+(* With the lowering of `inset` to four longhands (lower = true) the statement is
+   FALSE of the faithful model: a browser that rejects one value drops the whole
+   shorthand of the input but only one longhand of the output (known finding
+   C12-I, by design upstream; the witness is replayed from the fixed corpus:
+   a{bottom:3px;inset:2vw 1em 10% 0px;bottom:1vw} for firefox65). *)
+Theorem box_collapse_keeps_sides_lowering_refuted : exists e l s, wf_keys l /\
+  side_value e true (box_process true false true l) s <> side_value e true l s.
+Proof. exact box_lowering_refuted_witness. Qed.
+Print Assumptions box_collapse_keeps_sides_lowering_refuted.
+
+(* the quad core: what compactTokenQuad writes re-expands to the same four sides, and is shortest *)
+Theorem box_quad_roundtrip : forall q, expand_quad (compact_quad q) = Some q.
 Proof. exact box_quad_roundtrip_all. Qed.
-Print Assumptions box_collapse_same_sides_partial.
+Print Assumptions box_quad_roundtrip.
 
 Theorem box_collapse_shortest : forall q l, expand_quad l = Some q -> (length (compact_quad q) <= length l)%nat.
 Proof. exact box_quad_shortest_all. Qed.
 Print Assumptions box_collapse_shortest.
+
+(* DUPLICATE DECLARATIONS AT A DISTANCE.  The back-to-front duplicate removal over
+   a declaration list keeps exactly the LAST occurrence of every declaration,
+   where identity includes the property, the value and !important: a declaration
+   is dropped if and only if an identical declaration occurs later in the same
+   list - never because of a later non-identical declaration of the same
+   property, whatever lies in between. *)
+Theorem dedupe_is_keep_last : forall ds, remove_dead_decls ds = keep_last decl_eqb ds.
+Proof. exact dedupe_is_keep_last_all. Qed.
+Print Assumptions dedupe_is_keep_last.
+
+(* in particular a declaration without an identical later copy is never dropped,
+   whatever other declarations of the same property (other value, other
+   importance) follow it *)
+Theorem dedupe_keeps_unrepeated : forall ds1 d ds2,
+  existsb (decl_eqb d) ds2 = false -> In d (remove_dead_decls (ds1 ++ d :: ds2)).
+Proof. exact dedupe_keeps_last_occurrence. Qed.
+Print Assumptions dedupe_keeps_unrepeated.
 
 (* the alpha text of the rgba() fallback (table regenerated from source) reads
    back as the same alpha byte, for all 256 bytes (finite sweep) *)
